@@ -68,14 +68,15 @@ impl InfixOpManager {
                     if (op == "/=" || op == "%=") && b.is_zero() {
                         return Err(Error::DivideByZero);
                     }
-                    match op {
-                        "+=" => a += b,
-                        "-=" => a -= b,
-                        "*=" => a *= b,
-                        "/=" => a /= b,
-                        "%=" => a %= b,
-                        _ => (),
+                    a = match op {
+                        "+=" => a.checked_add(b),
+                        "-=" => a.checked_sub(b),
+                        "*=" => a.checked_mul(b),
+                        "/=" => a.checked_div(b),
+                        "%=" => a.checked_rem(b),
+                        _ => Some(a),
                     }
+                    .ok_or(Error::NumberOverflow)?;
                     Ok(Value::Number(a))
                 }),
             );
@@ -191,14 +192,15 @@ impl InfixOpManager {
                     if (op == "/" || op == "%") && b.is_zero() {
                         return Err(Error::DivideByZero);
                     }
-                    match op {
-                        "+" => a += b,
-                        "-" => a -= b,
-                        "*" => a *= b,
-                        "/" => a /= b,
-                        "%" => a %= b,
-                        _ => (),
+                    a = match op {
+                        "+" => a.checked_add(b),
+                        "-" => a.checked_sub(b),
+                        "*" => a.checked_mul(b),
+                        "/" => a.checked_div(b),
+                        "%" => a.checked_rem(b),
+                        _ => Some(a),
                     }
+                    .ok_or(Error::NumberOverflow)?;
                     Ok(Value::from(a))
                 }),
             );
@@ -418,7 +420,9 @@ impl PostfixOpManager {
             "++",
             Arc::new(|param| {
                 let a = match param {
-                    Value::Number(a) => a + Decimal::from_i32(1).unwrap(),
+                    Value::Number(a) => a
+                        .checked_add(Decimal::from_i32(1).unwrap())
+                        .ok_or(Error::NumberOverflow)?,
                     _ => return Err(Error::ShouldBeNumber()),
                 };
                 Ok(Value::Number(a))
@@ -429,7 +433,9 @@ impl PostfixOpManager {
             "--",
             Arc::new(|param| {
                 let a = match param {
-                    Value::Number(a) => a - Decimal::from_i32(1).unwrap(),
+                    Value::Number(a) => a
+                        .checked_sub(Decimal::from_i32(1).unwrap())
+                        .ok_or(Error::NumberOverflow)?,
                     _ => return Err(Error::ShouldBeNumber()),
                 };
                 Ok(Value::Number(a))
